@@ -548,6 +548,18 @@ func checkVectorDB(r *rand.Rand, chunks []*rag.Chunk, c *fw.Ctx) *fail {
 	if r.Intn(4) == 0 && len(emb) > 1 { // some chunks without an embedding
 		emb = emb[:r.Intn(len(emb))]
 	}
+	embAll := emb
+	if r.Intn(3) == 0 && len(emb) > 1 { // Pinecone only: a partially embedded collection, holes (nil or empty vectors) before embedded chunks
+		emb = append([][]float64{}, emb...)
+		for h := 1 + r.Intn(3); h > 0; h-- {
+			at := r.Intn(len(emb) - 1)
+			if r.Intn(2) == 0 {
+				emb[at] = nil
+			} else {
+				emb[at] = []float64{}
+			}
+		}
+	}
 	// PrepareForVectorDB
 	recs := ee.PrepareForVectorDB(chunks)
 	if len(recs) != len(chunks) {
@@ -603,6 +615,7 @@ func checkVectorDB(r *rand.Rand, chunks []*rag.Chunk, c *fw.Ctx) *fail {
 	if k != len(vecs) {
 		return failf("pinecone-count", "ExportForPinecone: %d vectors for %d chunks with embeddings", len(vecs), k)
 	}
+	emb = embAll
 	// Chroma
 	buf.Reset()
 	if err := ee.ExportForChroma(chunks, emb, &buf); err != nil {
